@@ -35,6 +35,12 @@ func VerifC24EmulateView() {
 	}
 	nregs := sym.Choose(sym.Param("maxregs", 5) + 1)
 	st := vState(nregs)
+	// optionally one register of 32 bytes: its row does not fit 80 columns
+	wide := nregs > 0 && sym.Choose(2) == 1
+	if wide {
+		st.Regs.Store("x1", expr.NewConst(sym.Bytes("x1w", 32), 32), 32)
+		sym.Reach("wide-register")
+	}
 	ips := []model.Addr{rvprog.Base, rvprog.Base + 0x10, rvprog.Base + 0x20}
 	m, err := New(code, ips[sym.Choose(len(ips))], st)
 	sym.Assert(err == nil, "emulation mode builds")
@@ -49,8 +55,16 @@ func VerifC24EmulateView() {
 	sym.NoPanic(func() { perr = rv.Print(rv.MinLines()) })
 	printed := sym.OutputLines()
 	sym.RestoreOutput()
-	sym.Assert(perr == nil, "register view renders")
-	sym.Assert(printed == rv.MinLines(), fmt.Sprintf("the register view writes exactly its declared height (%d registers besides the instruction pointer)", nregs))
+	// a row that does not fit the screen width is refused with an error (not a
+	// crash); a view that renders writes exactly its declared height, one that
+	// refuses never more
+	if !wide {
+		sym.Assert(perr == nil, "register view renders")
+	}
+	if perr == nil {
+		sym.Assert(printed == rv.MinLines(), fmt.Sprintf("the register view writes exactly its declared height (%d registers besides the instruction pointer)", nregs))
+	}
+	sym.Assert(printed <= rv.MinLines(), "the register view never writes more lines than its declared height")
 
 	// the whole screen
 	v := m.View()
@@ -63,6 +77,8 @@ func VerifC24EmulateView() {
 	sym.NoPanic(func() { perr = v.Print(n) })
 	printed = sym.OutputLines()
 	sym.RestoreOutput()
-	sym.Assert(perr == nil, "the emulator screen renders at any height of at least its minimum")
+	if !wide {
+		sym.Assert(perr == nil, "the emulator screen renders at any height of at least its minimum")
+	}
 	sym.Assert(printed <= n, "the emulator screen never writes more lines than granted")
 }
